@@ -94,13 +94,15 @@ func init() {
 			cfg.NSteps = 1 + rng.Intn(2)
 			cfg.RuleStyle = rng.Pick3(1, 0, 2)
 			cfg.Thresholds = []int{1, 1, 2}
+			cfg.SurplusPct = 40
+			cfg.ShortPct = 20
 			if rng.Chance(40) {
 				cfg.PopKinds = []string{"tampered", "foreign", "forged-keyid", "garbage", "corrupt-sig"}
 				cfg.ExtraPerStep = 1
 			}
 			cfg.Differ = rng.Chance(15)
 			return cfg
-		}, "two- and three-level nestings: the evidence of one functionary per step may be a sublayout with its own link directory; defects (tampered/foreign/forged/garbage/corrupt links, one link too few, disagreeing links, rule violations) land at any level; parent rules strict or lenient; compared: verdict and summary. Class = (depth features, verdict).")
+		}, "two- and three-level nestings: the evidence of one functionary per step may be a sublayout with its own link directory; defects (tampered/foreign/forged/garbage/corrupt links, one link too few, disagreeing links, rule violations) land at any level, also in a sublayout of a step that has more honest evidence than its threshold requires; parent rules strict or lenient; compared: verdict and summary. Class = (depth features, verdict).")
 	}
 	props["C09"] = func(r *Runner, tier string, rng *Rng) {
 		kinds := []string{"noop", "create", "modify", "delete", "exit", "create-exit", "signal", "missing", "empty", "noop", "create", "noop"}
